@@ -66,7 +66,7 @@ def run(tier, seed, engines, job):
     exes = ensure_targets()
     budget = job.get("fuzz_seconds", {}).get(tier, 45)
     workers_per_target = job.get("fuzz_workers", 5)
-    root = os.path.join(build.VERIF, "build", "run", "C17_fuzz")
+    root = os.path.join(build.BUILD, "run", "C17_fuzz")
     shutil.rmtree(root, ignore_errors=True)
     os.makedirs(root)
     tasks = []
@@ -106,7 +106,7 @@ def run(tier, seed, engines, job):
     samples = []
     nontrivial = set()
     evaluations = 0
-    os.makedirs(os.path.join(build.VERIF, "build", "violations", "C17"), exist_ok=True)
+    os.makedirs(os.path.join(build.BUILD, "violations", "C17"), exist_ok=True)
     seen_sigs = set()
     for (t, w, d, cmd), err in results:
         m = re.search(r"stat::number_of_executed_units:\s+(\d+)", err)
@@ -128,7 +128,7 @@ def run(tier, seed, engines, job):
                     continue
                 seen_sigs.add(sig)
                 data = open(art, "rb").read()
-                keep = os.path.join(build.VERIF, "build", "violations", "C17", "%s.%s-%s" % (t, kind, hashlib.sha1(data).hexdigest()[:12]))
+                keep = os.path.join(build.BUILD, "violations", "C17", "%s.%s-%s" % (t, kind, hashlib.sha1(data).hexdigest()[:12]))
                 shutil.copy(art, keep)
                 violations.append((keep, "%s: %s reproduces stand-alone: %s" % (t, kind, bad[0][1])))
             else:
